@@ -813,7 +813,7 @@ def gates(obs, tier):
         and obs.get("strace_syscalls_on_dataset_paths", 0) > 50
         and not obs.get("interposition_gaps"),
         "writers_and_readers_reached": calls.get("FileAccessor.store_chunk", 0) > 0
-        and calls.get("Shard.close", 0) > 0 and calls.get("Shard.read_bytes", 0) > 0,
+        and obs.get("calls_by_module", {}).get("sharded_file_accessor", 0) > 0,
         "all_io_call_kinds_intercepted": all(ck.get(k, 0) > 0 for k in
                                              ("open", "write", "close", "stat", "mkdir",
                                               "read")),
